@@ -112,6 +112,9 @@ def run_async_case(driver, seed, part, i, res):
            "wire": [(hex(w["value"]), w["answer"], w["origin"], round(w["t"], 4)) for w in wire][:40], "picks": picker.log[:60],
            "foreign": foreign}
     try:
+        if simlib.detached(out):
+            res.inconclusive.append('harness detached: ' + str(out))
+            return
         if stalled or out is not True:
             res.violation(f"C16/{driver}/hang-or-crash", f"simulation ended with {'a stall (callers blocked for ever)' if stalled else repr(out)}", wit)
             return
